@@ -320,7 +320,8 @@ Program gen_core(const std::string &campaign, uint64_t seed, bool thorough) {
     // program's own double close): every module registers private descriptors only
     p.set("fdpermod", 1);
     if (campaign == "C20") p.set("filefds", r.chance(0.5) ? 1 : 0);
-    if (campaign == "C09" || campaign == "C20") p.set("reap", r.chance(0.5) ? 1 : 0);   // processes may be gone for good: their pid sources cannot be polled (refused registration / failing start)   // every third user descriptor is one epoll refuses
+    if (campaign == "C09" || campaign == "C20") p.set("reap", r.chance(0.5) ? 1 : 0);
+    if (campaign == "C09" || campaign == "C20" || campaign == "C03") p.set("fdzero", r.chance(0.15) ? 1 : 0);   // descriptor number 0 as a key   // processes may be gone for good: their pid sources cannot be polled (refused registration / failing start)   // every third user descriptor is one epoll refuses
     g.tasks_in_program = (campaign == "C04" ? r.chance(0.6) : r.chance(0.3)) && (g.pf.src_kinds & 32);   // (only where task sources can be generated at all)
     if (campaign == "C09" && r.chance(0.3)) { g.batching_mode = true; g.tasks_in_program = false; }
     if (campaign == "C02" && r.chance(0.4)) g.batching_mode = true;
